@@ -36,7 +36,9 @@ PlCheck ==
   LET n == Len(R.x)
       nf == NCycFinal(R.x, R.sw, R.aref, R.b, R.cut)
       af == AmpFinal(R.x, R.sw, R.namp, R.b)
-      slackN == FMul(FStr("1e-13"), FAbs(nf))  slackA == FMul(FStr("1e-13"), FAbs(af))
+      \* "non-decreasing": the cycle count is a running sum of non-negative shares, held between peaks: exact; the amplitude is
+      \* a power of such a sum: monotone up to the last bits of the power function
+      slackN == Zero  slackA == FMul(FMul(FInt(8), Eps), FAbs(af))
       twob == FPow(Two, R.b)
   IN Fails(Len(R.ncyc) = n /\ Len(R.amp) = n, "PLLength")
      \cup Fails(NonDecreasing(R.ncyc, slackN) /\ NonDecreasing(R.amp, slackA), "PLMonotone")
